@@ -1032,6 +1032,31 @@ namespace chaiscript {
 
       void pop_function_call() { pop_function_call(*m_stack_holder, m_conversions.conversion_saves()); }
 
+#ifdef CHAISCRIPT_VERIF
+      /// Verification accessor: shape of the calling thread's evaluation state (read-only).
+      struct Verif_Stack_Shape {
+        std::size_t stacks;
+        std::size_t scopes_in_top_stack;
+        std::size_t call_params;
+        std::size_t call_params_back;
+        int call_depth;
+        bool saves_enabled;
+        std::size_t saves;
+      };
+
+      Verif_Stack_Shape verif_stack_shape() {
+        Stack_Holder &h = *m_stack_holder;
+        const auto &s = m_conversions.conversion_saves();
+        return Verif_Stack_Shape{h.stacks.size(),
+                                 h.stacks.empty() ? 0 : h.stacks.back().size(),
+                                 h.call_params.size(),
+                                 h.call_params.empty() ? 0 : h.call_params.back().size(),
+                                 h.call_depth,
+                                 s.enabled,
+                                 s.saves.size()};
+      }
+#endif
+
       Stack_Holder &get_stack_holder() noexcept { return *m_stack_holder; }
 
       /// Returns the current stack
